@@ -918,6 +918,18 @@ def oracle_alone(site: Dict[str, Any], base: str, a: Dict[str, Any], o: Dict[str
         if o["error"] == "RuntimeError":
             return "f15: aborted with builtin RuntimeError"
         return f"unexpected {o['error']}: {o.get('message')}"
+    # the scale: every rg-scaled-value (title count, prose, tables) as an independent render at the exact factor
+    if a["scale"] is not None:
+        fac = Fraction(a["scale"])
+    elif a["servings"] is not None:
+        fac = Fraction(a["servings"], f["servings"])
+    else:
+        fac = Fraction(1)
+    want_scaled = f["scaled"].get(str(fac))
+    if want_scaled is None:
+        return f"harness has no independent rendering at {fac}"
+    if o["scaled"] != want_scaled:
+        return (f"scaled values {o['scaled'][:6]} differ from compile_markdown(text).render({fac}) = {want_scaled[:6]}")
     shown = [v for _a, v in o["refs"]]
     if len(shown) != len(author):
         return f"{len(shown)} links on the page, the source has {len(author)}"
@@ -952,12 +964,45 @@ def make_alone_case(site: Dict[str, Any], a: Dict[str, Any], seed: int) -> Case:
             ("error:" + o["error"]) if "error" in o else "page"]
     if "error" not in o and any(v.startswith("data:") for _k, v in o["refs"]):
         tags.append("has-data-url")
+    if a["servings"] is not None and a["servings"] > 12:
+        tags.append("servings>12")
+    fr = facts["recipes"].get(next((n_["text"] for p_, n_ in G.walk(site["base"]) if list(p_) == list(a["file"]) and "text" in n_), None))
+    if fr and not fr["err"] and fr["servings"] and a["servings"] is not None and a["scale"] is None:
+        den = Fraction(a["servings"], fr["servings"]).denominator
+        tags.append("factor-denominator:" + ("<=16" if den <= 16 else ">16"))
     coq_in = f"(mk_alone_in {coq_fs(site)} {coq_alone_args(a)} {coq_env(facts)})"
     impl = {k: v for k, v in o.items() if k != "_html"}
     if "refs" in impl:
         impl["refs"] = [[k, v[:80]] for k, v in impl["refs"]]
     return Case(input={"site": site, "alone": a, "seed": seed}, coq_in=coq_in, coq_out=coq_alone_obs(o), impl=impl,
                 violation=viol, nontrivial=bool(o.get("refs")) or "error" in o, tags=tags)
+
+
+BIG_NATIVES = [17, 19, 20, 23, 24, 27, 29, 30, 31, 36, 37, 40]
+
+
+def pick_alone_big(rng: random.Random, site: Dict[str, Any]) -> Optional[Dict[str, Any]]:
+    """A recipe that states a large serving count, asked for a count coprime to it: n / native has a large
+    denominator in lowest terms (5/24, 7/20, 30/17 ...)."""
+    import math
+    recs = [(p, n) for p, n in G.walk(site["base"]) if n["k"] == "f" and "text" in n and p[0] == "src"
+            and G.is_md_name(n["name"]) and not G.is_readme_name(n["name"])]
+    if not recs:
+        return None
+    p, n = rng.choice(recs)
+    native = rng.choice(BIG_NATIVES)
+    lines = n["text"].split("\n")
+    heading = "# " + rng.choice(G.TITLES) + rng.choice([" for ", " serves ", " makes "]) + str(native)
+    idx = [i for i, ln in enumerate(lines) if ln.startswith("# ")]
+    if idx:
+        lines[idx[0]] = heading
+    else:
+        lines = [heading, ""] + lines
+    if not any("{" in ln for ln in lines):
+        lines += ["", "Use {3} eggs and {1/2} cup of milk, then {250}g flour.", ""]
+    n["text"] = "\n".join(lines)
+    want = [m for m in range(1, 46) if math.gcd(m, native) == 1 and m != 1]
+    return {"file": list(p), "scale": None, "servings": rng.choice(want), "embed": rng.random() < 0.3}
 
 
 def pick_alone(rng: random.Random, site: Dict[str, Any]) -> Optional[Dict[str, Any]]:
@@ -1044,8 +1089,14 @@ def make_history_case(site: Dict[str, Any], steps: List[Dict[str, Any]], seed: i
         for st in steps:
             if st["op"] == "write":
                 apply_write(cur, st["file"], st["text"])
-                with open(os.path.join(base, *st["file"]), "wb") as f:
+                wpath = os.path.join(base, *st["file"])
+                old_stat = os.stat(wpath) if (st.get("keep_times") and os.path.exists(wpath)) else None
+                with open(wpath, "wb") as f:
                     f.write(st["text"].encode("utf-8"))
+                if old_stat is not None:
+                    # an in-place edit that leaves size and timestamps as they were (rsync -t, git checkout, a fast editor)
+                    assert os.stat(wpath).st_size == old_stat.st_size
+                    os.utime(wpath, ns=(old_stat.st_atime_ns, old_stat.st_mtime_ns))
                 step_terms.append(f"(HWrite {cpath(['B'] + list(st['file']))} {cbytes(st['text'].encode('utf-8'))})")
             elif st["op"] == "gen":
                 out = os.path.join(base, "__out%d__" % k)
@@ -1087,8 +1138,41 @@ def make_history_case(site: Dict[str, Any], steps: List[Dict[str, Any]], seed: i
     tags = [f"gens:{ngen}", f"writes:{sum(1 for s_ in steps if s_['op'] == 'write')}"]
     if any(s_["op"] == "alone" for s_ in steps):
         tags.append("with-standalone")
+    if any(s_.get("keep_times") for s_ in steps):
+        tags.append("same-length-edit-mtime-preserved")
     return Case(input={"site": site, "steps": steps, "seed": seed}, coq_in=coq_in, coq_out=c.lst(obs_terms, "hobs"),
                 impl=digest, violation=viol, nontrivial=ngen >= 2, tags=tags)
+
+
+def same_length_edit(rng: random.Random, text: str, M: int) -> Optional[str]:
+    """Another document of exactly the same byte length: one ASCII digit replaced (a quantity, a scaled value, the
+    serving count of the title - kept within 1..M), or the case of one ASCII letter of the first line flipped."""
+    lines = text.split("\n")
+    first = 0
+    spots = []           # (offset, allowed replacement digits)
+    off = 0
+    for li, ln in enumerate(lines):
+        for ci, ch in enumerate(ln):
+            if ch.isdigit() and ch.isascii():
+                in_title = ln.startswith("# ")
+                prev_digit = ci > 0 and ln[ci - 1].isdigit()
+                next_digit = ci + 1 < len(ln) and ln[ci + 1].isdigit()
+                if in_title:
+                    if prev_digit or next_digit:
+                        continue
+                    allowed = [d for d in "123456789" if int(d) <= M and d != ch]
+                else:
+                    allowed = [d for d in "123456789" if d != ch]
+                if allowed:
+                    spots.append((off + ci, allowed))
+        off += len(ln) + 1
+    if spots:
+        o, allowed = rng.choice(spots)
+        return text[:o] + rng.choice(allowed) + text[o + 1:]
+    for i, ch in enumerate(lines[0]):
+        if ch.isascii() and ch.isalpha() and i > 1:
+            return text[:i] + ch.swapcase() + text[i + 1:]
+    return None
 
 
 def gen_history(rng: random.Random, site: Dict[str, Any]) -> List[Dict[str, Any]]:
@@ -1128,6 +1212,20 @@ def gen_history(rng: random.Random, site: Dict[str, Any]) -> List[Dict[str, Any]
             if a is not None:
                 a.update({"op": "alone", "rng": rng.randrange(10 ** 6)})
                 steps.append(a)
+    # in-place edits of the same length with the timestamps put back (recipes and readmes): the second generation
+    # must show the new text although path, size and mtime are unchanged
+    for _ in range(rng.randrange(1, 3)):
+        cands = [(p, n) for p, n in recs]
+        rng.shuffle(cands)
+        for p, n in cands:
+            new = same_length_edit(rng, cur_text[tuple(p)], site["M"])
+            if new is not None and new != cur_text[tuple(p)] and len(new.encode("utf-8")) == len(cur_text[tuple(p)].encode("utf-8")):
+                if steps[-1]["op"] != "gen":
+                    steps.append({"op": "gen", "M": site["M"], "order": rng.randrange(10 ** 6), "rng": rng.randrange(10 ** 6)})
+                cur_text[tuple(p)] = new
+                steps.append({"op": "write", "file": list(p), "text": new, "keep_times": True})
+                steps.append({"op": "gen", "M": site["M"], "order": rng.randrange(10 ** 6), "rng": rng.randrange(10 ** 6)})
+                break
     if steps[-1]["op"] != "gen":
         steps.append({"op": "gen", "M": site["M"], "order": rng.randrange(10 ** 6), "rng": rng.randrange(10 ** 6)})
     return steps
@@ -1163,7 +1261,7 @@ def _alone_job(args: Tuple[int, int, str]) -> Optional[Case]:
     site = G.gen_site(rng, profile, rng.choice(["small", "small", "medium"]))
     if profile == "valid" and rng.random() < 0.6:
         add_local_links(rng, site)
-    a = pick_alone(rng, site)
+    a = pick_alone_big(rng, site) if (profile == "valid" and rng.random() < 0.35) else pick_alone(rng, site)
     if a is None:
         return None
     return make_alone_case(site, a, seed * 100000 + i)
@@ -1213,6 +1311,21 @@ def gen_alone_cases(seed: int, n_valid: int, n_err: int) -> List[Case]:
     jobs = [(seed, i, "valid") for i in range(n_valid)] + [(seed, 10000 + i, rng_prof) for i, rng_prof in
                                                              enumerate(["errors", "f13", "f15"] * ((n_err + 2) // 3))][:n_valid + n_err]
     return [x for x in pmap(_alone_job, jobs) if x is not None]
+
+
+def _edit_history_job(args: Tuple[int, int]) -> Case:
+    """generate, edit recipes in place (same length, timestamps restored: serving counts, quantities), generate again"""
+    seed, i = args
+    rng = random.Random((seed * 1000003 + i) * 7 + 6)
+    site = G.gen_site(rng, "valid", rng.choice(["small", "small", "medium"]))
+    if site["M"] > 5:
+        site["M"] = rng.randrange(2, 6)
+    steps = gen_history(rng, site)
+    return make_history_case(site, steps, seed * 100000 + i)
+
+
+def gen_edit_history_cases(seed: int, n: int) -> List[Case]:
+    return pmap(_edit_history_job, [(seed, i) for i in range(n)])
 
 
 def replay_any(inp: Dict[str, Any], which: str) -> Case:
